@@ -346,4 +346,12 @@ def Pool.get (p : Pool) (now : Nat) : Pool × GetResult := getLoop p.limit p.max
 
 def Pool.put (p : Pool) (x : Nat) (now : Nat) : Pool := { p with idle := ⟨x, now⟩ :: p.idle }
 
+/-- `Get` when the `create` callback PANICS (the reuse and wait paths never call it: as in `get`).  On the
+create path `p.created++` has already run; the panic leaves through the deferred `Unlock` and nothing undoes
+the increment: no resource exists, the counter stays.  Third component: did the call panic. -/
+def Pool.getCreatePanics (p : Pool) (now : Nat) : Pool × GetResult × Bool :=
+  match p.get now with
+  | (p', .got item true d) => ({ p' with next := p.next }, .got item true d, true)
+  | (p', res) => (p', res, false)
+
 end GoZero.C05
